@@ -49,6 +49,8 @@ Conc(s) ==
     [] s = "ix"   -> <<BS,"i","n","d","e","x","{","k","}">>
     [] s = "uk"   -> <<BS,"f","o","o">>
     [] s = "uk2"  -> <<BS,"b","a","r">>
+    [] s = "hsu"  -> <<BS,"h","s","p","a","c","e","{",BS,"f","o","o","}">>       \* an undeclared macro in an argument that is only inspected
+    [] s = "phu"  -> <<BS,"p","h","a","n","t","o","m","{",BS,"b","a","r","}">>
     [] s = "ob"   -> <<"{">>
     [] s = "cb"   -> <<"}">>
     [] s = "add"  -> <<BS,"L","T","a","d","d","{">>               \* \LTadd{ : argument is kept
@@ -154,6 +156,7 @@ Conc(s) ==
     [] s = "rB"  -> <<BS,"r","e","n","e","w","c","o","m","m","a","n","d","{",BS,"m","b","}","[","1","]","{","n","#","1","}">>
     [] s = "dH"  -> <<BS,"n","e","w","c","o","m","m","a","n","d","{",BS,"m","h","}","[","1","]","[","d","]","{","m","#","1","}">>
     [] s = "uH"  -> <<BS,"m","h">>
+    [] s = "rA"  -> <<BS,"r","e","n","e","w","c","o","m","m","a","n","d","{",BS,"m","a","}","{","n","}">>
     [] s = "uA"  -> <<BS,"m","a">>
     [] s = "uB"  -> <<BS,"m","b","{">>
     [] s = "uBt" -> <<BS,"m","b"," ","b">>
@@ -197,9 +200,9 @@ MathBody == {"my","mw","mpl","meq","mal","mfr","msb","msp","mti","mdt","mcm","mo
 DispBody == MathBody \cup {"mtx","mlb","mnn","mam","mnl"}
 CloserOf(o) == CASE o = "mo" -> "mc" [] o = "mo2" -> "mc2" [] o = "ba" -> "ea" [] o = "bq" -> "eq" [] o = "bd" -> "ed" [] o = "bdd" -> "edd"
 MathSyms == MathOpen \cup DispOpen \cup DispBody \cup {"mc","mc2","ea","eq","ed","edd"}
-DefSyms == {"dA","dB","dC","dD","dE","dF","dG","rB","dH"}
+DefSyms == {"dA","dB","dC","dD","dE","dF","dG","rB","dH","rA"}
 UseSyms == {"uA","uB","uBt","uC","uCo","uD","uE","uF","uG","uH"}
-MacroOf(s) == CASE s \in {"dA","uA"} -> "ma" [] s \in {"dB","rB","uB","uBt"} -> "mb" [] s \in {"dC","uC","uCo"} -> "mc"
+MacroOf(s) == CASE s \in {"dA","uA","rA"} -> "ma" [] s \in {"dB","rB","uB","uBt"} -> "mb" [] s \in {"dC","uC","uCo"} -> "mc"
                 [] s \in {"dD","uD"} -> "md" [] s \in {"dE","uE"} -> "me" [] s \in {"dF","uF"} -> "mf" [] s \in {"dG","uG"} -> "mg" [] s \in {"dH","uH"} -> "mh"
 MacroNames == {"ma","mb","mc","md","me","mf","mg","mh"}
 MacroChars(m) == <<BS, "m", CASE m = "ma" -> "a" [] m = "mb" -> "b" [] m = "mc" -> "c" [] m = "md" -> "d" [] m = "me" -> "e" [] m = "mf" -> "f" [] m = "mg" -> "g" [] m = "mh" -> "h">>
@@ -213,13 +216,14 @@ BodyOf(d) == CASE d = "dA" -> << <<"t","m">>, <<"t","n">> >>
                [] d = "dG" -> << <<"c","mb",<< <<"a",1>> >> >>, <<"t","n">> >>
                [] d = "rB" -> << <<"t","n">>, <<"a",1>> >>
                [] d = "dH" -> << <<"t","m">>, <<"a",1>> >>
+               [] d = "rA" -> << <<"t","n">> >>
 BeginSyms == {"bi","be","bu","bl","bm"}
 EndSyms == {"ei","ee","eu","el","em"}
 EnvOf(s) == CASE s \in {"bi","ei"} -> "itemize" [] s \in {"be","ee"} -> "enumerate"
               [] s \in {"bu","eu"} -> "unk" [] s \in {"bl","el"} -> "lstlisting" [] s \in {"bm","em"} -> "minipage"
 
 AllSyms == Visible \cup ReplSyms \cup OpenSyms \cup BeginSyms \cup EndSyms \cup
-   {"sp","nl","tab","cm","lb","ix","uk","uk2","cb","skp","par","im","imp","ref","cite","skb","ske","q","fnq","it","vb","vrb","vrb2","ocb","ctc","rbk","up","uA","uBt","uH","cmf","cmu","acb","ltE","ltD","gld","gls"} \cup DefSyms \cup MathSyms \cup FaultSyms \cup LangSyms
+   {"sp","nl","tab","cm","lb","ix","uk","uk2","cb","skp","par","im","imp","ref","cite","skb","ske","q","fnq","it","vb","vrb","vrb2","ocb","ctc","rbk","up","uA","uBt","uH","hsu","phu","cmf","cmu","acb","ltE","ltD","gld","gls"} \cup DefSyms \cup MathSyms \cup FaultSyms \cup LangSyms
 
 (***************************************************************************)
 (* Reference state                                                         *)
@@ -304,15 +308,17 @@ AllowedCtx(st, s) ==
   /\ s = "alt" => ~InKind(st, "sec") /\ ~InKind(st, "fn") /\ ~InKind(st, "arg") /\ ~InKind(st, "alt1") /\ ~InKind(st, "hid")
   /\ (st.ctx # <<>> /\ Top(st).k = "alt1") => s \in Visible \cup {"sp", "acb"}
   /\ s \in {"ltE", "ltD", "gld"} => st.ctx = <<>>
+  /\ s \in {"hsu", "phu"} => ~InKind(st, "sec")
   /\ s = "gls" => "glossary-loaded" \in st.feat /\ ~InKind(st, "sec")
-  /\ s = "ltD" => st.defs["ma"] = "none"
+  \* (reading the file again executes its definition again)
   /\ s = "ocb" => st.ctx # <<>> /\ Top(st).k = "mopt"
   /\ s = "ctc" => st.ctx # <<>> /\ Top(st).k = "copt"
   /\ s = "rbk" => Len(st.ctx) >= 2 /\ Top(st).k = "grp" /\ st.ctx[Len(st.ctx)-1].k \in {"copt", "mopt"}
   /\ s \in DefSyms \cup {"up"} => st.ctx = <<>>
   /\ s = "rB" => st.defs["mb"] # "none"
   /\ s = "uCo" => st.defs["mc"] # "none"
-  /\ s \in DefSyms \ {"rB"} => st.defs[MacroOf(s)] = "none"
+  /\ s = "rA" => st.defs["ma"] # "none"
+  /\ s \in DefSyms \ {"rB", "rA"} => st.defs[MacroOf(s)] = "none"
   \* inside an optional argument: plain text and groups only
   /\ (st.ctx # <<>> /\ Top(st).k \in {"copt","mopt"}) => s \in Visible \cup {"sp","ob","ctc","ocb"}
   /\ (Len(st.ctx) >= 2 /\ Top(st).k = "grp" /\ st.ctx[Len(st.ctx)-1].k \in {"copt","mopt"}) => s \in Visible \cup {"sp","rbk","cb"}
@@ -407,6 +413,8 @@ Step(st, s) ==
     [] s \in {"lb","ix","skp"} -> Emit(s1, <<Lay("v")>>)
     [] s = "uk"  -> AddUnk(Emit(s1, <<Lay("cw")>>), <<BS,"f","o","o">>)
     [] s = "uk2" -> AddUnk(Emit(s1, <<Lay("cw")>>), <<BS,"b","a","r">>)
+    [] s = "hsu" -> AddUnk(Emit(s1, <<Lay("x"), It("g", "ws", p0+1, p1, 0), Lay("x")>>), <<BS,"f","o","o">>)
+    [] s = "phu" -> AddUnk(Emit(s1, <<Lay("v")>>), <<BS,"b","a","r">>)
     [] s = "par" -> Emit(s1, <<It("g", "ws", p0+1, p1, 0), Lay("pb"), Lay("cw")>>)
     [] s \in {"im","imp"} ->
          \* one placeholder; the closing punctuation mark of the formula is kept
